@@ -35,9 +35,36 @@ def id_lit(s):
     return _LITS[s]
 
 
+_IDENTS = {}
+
+
+def ident_of(oid):
+    """Symbolic identity (a non-null Ref, distinct from those of other materialised objects) of a materialised object that is stored
+    into a reference-valued heap field (x._model = self with self materialised)."""
+    if oid not in _IDENTS:
+        _IDENTS[oid] = z3.Const(f"ident_obj{oid}", Ref)
+    return _IDENTS[oid]
+
+
+def lit_to_py(v):
+    """python string of a string value that is (after simplification) one of the literal constants, else None"""
+    if isinstance(v, VConc) and isinstance(v.py, str):
+        return v.py
+    if isinstance(v, VStr):
+        t = z3.simplify(v.t)
+        for s_, c in _LITS.items():
+            if c.eq(t):
+                return s_
+    return None
+
+
 def lit_axioms():
     ls = list(_LITS.values())
-    return [z3.Distinct(*ls)] if len(ls) > 1 else []
+    out = [z3.Distinct(*ls)] if len(ls) > 1 else []
+    ids = list(_IDENTS.values())
+    if ids:
+        out.append(z3.Distinct(NULL, *ids))
+    return out
 
 
 class Value:
@@ -193,11 +220,12 @@ class VSeq(Value):
     get(st, idx_term) -> Value.  `live` names a list VObj that the sequence reads live (CPython list iterators do).
     known_len: python int if the length is concrete (then loops unroll).
     """
-    __slots__ = ("n", "get", "known_len", "tag", "src", "flat")
+    __slots__ = ("n", "get", "known_len", "tag", "src", "flat", "flt")
 
     def __init__(self, n, get, known_len=None, tag="seq", src=None, flat=None):
         self.n, self.get, self.known_len, self.tag, self.src = n, get, known_len, tag, src
         self.flat = flat      # (inner_n, k, comp(s, j, c) -> Value): the sequence is the flattening of inner_n tuples of arity k
+        self.flt = None       # (src, dst, generator) ghost maps of a filtered subsequence
 
     def __repr__(self):
         return f"VSeq({self.tag},n={self.n})"
@@ -304,6 +332,8 @@ def unwrap(v, kind):
             return v.t
         if isinstance(v, VNone):
             return NULL
+        if isinstance(v, VObj) and v.kind == "obj":
+            return ident_of(v.oid)
     elif kind == "real":
         if isinstance(v, VReal):
             return v.v
